@@ -294,6 +294,21 @@ theorem reject_bad_scale (scale next : Ch) (h : scale ≠ ch! '1' ∧ scale ≠ 
   · rfl
   · simp [e1, e2, e4, e8]
 
+/-- **(f)** the scale is ONE digit standing alone: whatever else touches it (another digit, a second `*`, `x` of a hexadecimal
+    spelling, any other character) makes the expression rejected, so products and multi-digit or hexadecimal numbers never pass
+    as the digit next to the register -/
+theorem reject_glued_scale (scale next : Ch)
+    (h : next ≠ ch! ']' ∧ next ≠ ch! '+' ∧ next ≠ ch! '-' ∧ next ≠ ch! '[') : checkSibDisp scale next = none := by
+  unfold checkSibDisp
+  obtain ⟨h1, h2, h3, h4⟩ := h
+  have e1 : (next != ch! ']') = true := by simpa using h1
+  have e2 : (next != ch! '+') = true := by simpa using h2
+  have e3 : (next != ch! '-') = true := by simpa using h3
+  have e4 : (next != ch! '[') = true := by simpa using h4
+  simp [e1, e2, e3, e4]
+
+example : checkSibDisp (ch! '2') (ch! '*') = none ∧ checkSibDisp (ch! '2') (ch! 'a') = none ∧ checkSibDisp (ch! '6') (ch! '1') = none := by decide
+
 /-- **(f)** the stack pointer as index is rejected when it is scaled or when the base is the stack
     pointer too (src/prefix.c:131) -/
 theorem reject_stack_pointer_index (s : Instr) (m : Operand) (r : Nat)
